@@ -957,6 +957,9 @@ class OdeSystem(object):
 
         if D.ar_numpy.abs(tf - self.__t[self.counter]) < D.epsilon(self.__y[self.counter].dtype):
             return
+        if self.__int_status == 2 or isinstance(self.__int_status, (etypes.FailedIntegration, KeyboardInterrupt)):
+            # a new integration supersedes the outcome of an earlier failed or event-terminated call
+            self.__int_status = 0
         steps = 0
 
         events, is_terminal, direction, last_occurrence, requires_dstate = prepare_events(events, self.__y[0])
